@@ -500,6 +500,12 @@ Op stageOp(Rng &r, int stage, bool cb, bool reordering, bool owInBand) {
   op.params = genParams(r, stage, reordering, owInBand);
   op.cb = cb ? 1 : 0;
   if (stage == 0) genSchedule(r, op);
+  if (!cb && r.chance(0.08)) {
+    // the int-effort overloads of the public API
+    op.params.byEffort = 1;
+    op.params.ov.clear();
+    op.params.seed = -1;
+  }
   return op;
 }
 
@@ -718,6 +724,16 @@ Plan genFrame(const std::string &profile, uint64_t seed, int tier) {
     int stage = (int)ro.below(3);
     Op op = stageOp(ro, stage, ro.chance(0.5), ro.chance(0.2), ro.chance(0.5));
     if (ro.chance(0.5)) addFault(ro, op, tier, stage == 0 ? 12 : stage == 1 ? 0 : 6);
+    if (ro.chance(0.1)) {
+      // an unrelated placement runs inside one of the callbacks
+      if (p.other.cells.empty()) p.other = smallOther(ro);
+      CbAction a;
+      a.k = (int)ro.range(0, stage == 0 ? 6 : 2);
+      a.kind = CB_NEST;
+      a.arg = (long long)ro.below(18);
+      op.cb = 1;
+      op.actions.push_back(a);
+    }
     p.ops.push_back(op);
     if (ro.chance(0.2)) p.ops.push_back(perturbOp(ro, b.H));
   }
